@@ -14,7 +14,7 @@ use shred::{Par, ParSeq, ResourceId, RunWithPool, Seq, World};
 use crate::build::{reset_states, Layout};
 use crate::dfamily::{EvalOut, Replay, Stats};
 use crate::oracle::{check_isolation, history, Violation};
-use crate::plan::{conf, gen_resmap, mask, Kind, SysInfo};
+use crate::plan::{conf, gen_resmap, mask, FaultKind, Kind, SysInfo};
 use crate::res::{Core, RKey};
 use crate::run::{interleaving_digest, log_digest, make_strategy, probe_all, StratSpec, MAX_STEPS};
 use crate::sys::*;
@@ -35,6 +35,10 @@ pub struct PScen {
     pub inside: bool,
     pub ncalls: usize,
     pub fine_points: bool,
+    /// leaf (index modulo the number of leaves) that panics in the first dispatch, and where
+    /// (0 before fetching, 1 inside its window, 2 after releasing); the caller catches it
+    #[serde(default)]
+    pub panic: Option<(usize, u8)>,
 }
 
 struct BoxNode(Box<dyn for<'a> RunWithPool<'a> + Send>);
@@ -76,6 +80,18 @@ fn gen_tree(rng: &mut Rng, depth: usize, nres: usize, wratio: u64, budget: &mut 
 }
 
 pub fn gen(seed: u64) -> PScen {
+    let mut sc = gen_plain(seed);
+    let mut rng = Rng::sub(seed, 37);
+    if rng.chance(1, 6) {
+        // the first dispatch is left by a panic of one leaf (caught): the following dispatches
+        // must run every leaf once again
+        sc.panic = Some((rng.below(64) as usize, rng.below(3) as u8));
+        sc.ncalls = 2 + rng.below(2) as usize;
+    }
+    sc
+}
+
+fn gen_plain(seed: u64) -> PScen {
     let mut rng = Rng::sub(seed, 31);
     let nres = 2 + rng.below(9) as usize;
     let wratio = *rng.pick(&[5u64, 15, 30, 50]);
@@ -89,6 +105,7 @@ pub fn gen(seed: u64) -> PScen {
         inside: rng.chance(1, 3),
         ncalls: 1 + rng.below(2) as usize,
         fine_points: rng.chance(1, 3),
+        panic: None,
     }
 }
 
@@ -302,6 +319,14 @@ pub fn run_scen(sc: &PScen, strat: &StratSpec, seed: u64, replay: Option<Vec<u32
         }
     }
     reset_states(&ctx);
+    let armed = match sc.panic {
+        Some((l, k)) if nleaves > 0 => {
+            let kind = [FaultKind::PanicBefore, FaultKind::PanicMid, FaultKind::PanicAfter][k as usize % 3];
+            ctx.directives.lock().unwrap()[l % nleaves].push(crate::sys::Directive { call: 0, kind, arg: 0 });
+            Some(l % nleaves)
+        }
+        _ => None,
+    };
     let lay = Layout { pos: vec![None; nleaves], ..Default::default() };
     let cfg = detsim::Config { seed, strategy: make_strategy(strat, seed, &ctx, &lay), replay, max_steps: MAX_STEPS };
     let mut runs_after: Vec<Vec<u64>> = Vec::new();
@@ -312,6 +337,7 @@ pub fn run_scen(sc: &PScen, strat: &StratSpec, seed: u64, replay: Option<Vec<u32
         for ci in 0..sc.ncalls {
             let inst = ctx.next_inst.fetch_add(1, Ordering::SeqCst);
             ctx.top_inst.store(inst, Ordering::SeqCst);
+            ctx.cur_call.store(ci, Ordering::SeqCst);
             ctx.emit(Ev::CallBegin, usize::MAX, ci as u64);
             let r = if sc.inside {
                 let p = SendPtr(&mut ps as *mut ParSeq<Arc<rayon::ThreadPool>, BoxNode>);
@@ -342,8 +368,12 @@ pub fn run_scen(sc: &PScen, strat: &StratSpec, seed: u64, replay: Option<Vec<u32
     }
     // exactly once per dispatch
     for (ci, r) in runs_after.iter().enumerate() {
+        if ci == 0 && armed.is_some() {
+            // the dispatch in which a leaf panicked: what is claimed is about the next ones
+            continue;
+        }
         if let Some(p) = &panics[ci] {
-            out.push(vio("dispatch-panicked", format!("dispatch #{} of a conflict-free tree panicked: {}", ci, p.lines().next().unwrap_or(""))));
+            out.push(vio("dispatch-panicked", format!("dispatch #{} of a conflict-free tree panicked although no leaf did: {}", ci, p.lines().next().unwrap_or(""))));
             continue;
         }
         for i in 0..nleaves {
